@@ -8,3 +8,5 @@ import CruxVerif.Props.C13
 #print axioms Props.C13.finished_stream_entry_stays
 #print axioms Props.C13.finished_commands_leave_the_executor_flat
 #print axioms Props.C13.finished_commands_leave_the_executor_bridge_flat
+#print axioms Props.C13.stored_tasks_are_charged_to_outstanding_requests
+#print axioms Props.C13.charges_are_distinct
